@@ -255,8 +255,33 @@ func driveC18(t *testing.T, out *vEmitter) {
 			continue
 		}
 		check("authenticated", b.do("GET", "/page", hdr, ""))
-		time.Sleep(1100 * time.Millisecond) // past cookie-refresh: the next request refreshes and re-saves
-		check("refresh", b.do("GET", "/page2", hdr, ""))
+		// past cookie-refresh: the stored session is aged (its creation time moved back), so that the next request
+		// refreshes and re-saves it
+		{
+			rq := httptest.NewRequest("GET", scheme+"://"+eff+"/", nil)
+			rq.Header.Set("Cookie", b.cookieHeader("/"))
+			if ss, err := e.p.sessionStore.Load(rq); err == nil && ss != nil {
+				old := time.Now().Add(-10 * time.Second)
+				ss.CreatedAt = &old
+				rw := httptest.NewRecorder()
+				if e.p.sessionStore.Save(rw, rq, ss) == nil {
+					b.jar.SetCookies(b.origin, (&http.Response{Header: rw.Header()}).Cookies())
+				}
+			}
+		}
+		e.idp.Reset()
+		rr := b.do("GET", "/page2", hdr, "")
+		check("refresh", rr)
+		nref := 0
+		for _, c := range e.idp.Calls("/token") {
+			if c.Form.Get("grant_type") == "refresh_token" {
+				nref++
+			}
+		}
+		out.Stat("flows_refresh_calls", nref)
+		if nref != 1 || len(rr.Cookies) == 0 {
+			t.Fatalf("flow %s: the aged session was not refreshed and re-saved (refresh calls %d, cookies %d)", fc.name, nref, len(rr.Cookies))
+		}
 		check("bad-callback", b.do("GET", e.opts.ProxyPrefix+"/callback?code=c&state=zzzzzzzzzz:/", hdr, ""))
 		check("sign_out", b.do("GET", e.opts.ProxyPrefix+"/sign_out", hdr, ""))
 		check("after", b.do("GET", "/", hdr, ""))
